@@ -9,7 +9,7 @@ Definition str := list cp.
 Record mark := { m_index : nat; m_line : nat; m_col : nat }.
 
 Inductive style := SPlain | SSingle | SDouble | SLiteral | SFolded.
-Inductive dirval := DNone | DYaml (major minor : str) | DTag (handle prefix : str).
+Inductive dirval := DNone | DYaml (major minor : N) | DTag (handle prefix : str).
 Inductive tok :=
 | TStreamStart | TStreamEnd | TDirective (name : str) (val : dirval) | TDocStart | TDocEnd
 | TBlockSeqStart | TBlockMapStart | TBlockEnd | TFlowSeqStart | TFlowMapStart | TFlowSeqEnd | TFlowMapEnd
@@ -233,11 +233,14 @@ Definition scan_directive_name (start : mark) : M str :=
   | _ => v <- prefix n ;; forward n ;;; ch <- peek 0 ;;
          if mem ch blankz_notab then ret v else err (Some start) 2
   end.
-Definition scan_yaml_directive_number (start : mark) : M str :=
+Definition digits_to_N (v : str) : N := fold_left (fun acc c => (acc * 10 + (c - 48))%N) v 0%N.
+Definition scan_yaml_directive_number (start : mark) : M N :=
   ch <- peek 0 ;;
   if negb (is_digit ch) then err (Some start) 3 else
   n <- with_fuel (fun f => span f is_digit 0) ;;
-  v <- prefix n ;; forward n ;;; ret v.         (* int(...) kept as its digit string in the spike *)
+  v <- prefix n ;; forward n ;;;
+  (* int(value): CPython refuses decimal strings longer than 4300 digits with ValueError *)
+  if (4300 <? N.of_nat (length v))%N then crash ValueError else ret (digits_to_N v).
 Definition scan_yaml_directive_value (start : mark) : M dirval :=
   with_fuel skip_spaces ;;;
   major <- scan_yaml_directive_number start ;;
